@@ -194,13 +194,37 @@ impl TSpec {
         rec(&mut t, 0, self);
         t
     }
-    /// layout selector shared by the property modules: 0 depth-first, 1 breadth-first, 2 re-used indices, 3 column-major
+    /// Build level by level and, within a level, label by label with the highest label first: siblings are not
+    /// neighbours in the arena, and a child on a higher label has a smaller index than its sibling on a lower one.
+    pub fn build_interleaved<const K: usize>(&self) -> AffTree<K> {
+        let mut t = AffTree::<K>::from_aff(self.aff().to_real());
+        let mut level: Vec<(usize, &TSpec)> = vec![(0, self)];
+        while !level.is_empty() {
+            let mut next = vec![];
+            for l in (0..K).rev() {
+                for (idx, s) in &level {
+                    if let TSpec::Dec(_, ch) = s {
+                        if let Some(Some(c)) = ch.get(l) {
+                            let ci = t.add_child_node(*idx, l, c.aff().to_real()).unwrap();
+                            next.push((ci, c));
+                        }
+                    }
+                }
+            }
+            level = next;
+        }
+        t
+    }
+    /// layout selector shared by the property modules: 0 depth-first, 1 breadth-first, 2 re-used indices,
+    /// 3 column-major, 4 interleaved siblings
+    pub const LAYOUTS: usize = 5;
     pub fn build_layout<const K: usize>(&self, layout: u8) -> AffTree<K> {
-        match layout % 4 {
+        match layout % 5 {
             0 => self.build::<K>(),
             1 => self.build_bfs::<K>(),
             2 => self.build_scrambled::<K>(),
-            _ => self.build_fortran::<K>(),
+            3 => self.build_fortran::<K>(),
+            _ => self.build_interleaved::<K>(),
         }
     }
     /// Build through a history: a decoy subtree is inserted first and removed again so that
@@ -208,12 +232,22 @@ impl TSpec {
     pub fn build_scrambled<const K: usize>(&self) -> AffTree<K> {
         let mut t = AffTree::<K>::from_aff(self.aff().to_real());
         if let TSpec::Dec(_, ch) = self {
-            // decoy below label of the first present child
+            // A decoy chain 1 -> 2 -> .. -> m below the label of the first present child is inserted and then
+            // dissolved from the top (node 1 first, node m last). The slab hands freed slots out last-in-first-out,
+            // so the real nodes receive the indices m, m-1, .., 1: every node is stored *before* its parent.
             if let Some(l) = ch.iter().position(|c| c.is_some()) {
-                let d = t.add_child_node(0, l, self.aff().to_real()).unwrap();
-                let d2 = t.add_child_node(d, 0, self.aff().to_real()).unwrap();
-                let _ = t.add_child_node(d2, K - 1, self.aff().to_real()).unwrap();
-                let _ = t.add_child_node(d, K - 1, self.aff().to_real()).unwrap();
+                let m = self.n_nodes().saturating_sub(1).max(2);
+                let mut chain = vec![];
+                let mut at = 0usize;
+                for i in 0..m {
+                    let lab = if i == 0 { l } else { (i % K).min(K - 1) };
+                    at = t.add_child_node(at, lab, self.aff().to_real()).unwrap();
+                    chain.push((at, lab));
+                }
+                for w in 0..m - 1 {
+                    // skip chain[w] (it has exactly one child, on the label of chain[w + 1])
+                    t.tree.merge_child_with_parent(chain[w].0, chain[w + 1].1).unwrap();
+                }
                 t.tree.remove_child(0, l);
             }
         }
